@@ -515,6 +515,26 @@ def driver_line(case, out):
     return f"all {case['ty']} {case['T']} {case['I']} {case['J']} {C.rlist(case['vals'])} {grp} {yrs} {s0} {s1} {case['minlen']} {labs}"
 
 
+def driver_line_perm(case, out, rng):
+    """the same request, with the arrays handed to the driver in another storage order B plus the permutation `perm`
+    such that `reindex perm B` (Model.Metrics) is what the real code saw; ties `reindex` (storage-order theorems)"""
+    T, I, J = case["T"], case["I"], case["J"]
+    perm = list(range(T))
+    rng.shuffle(perm)
+    def unperm(a, block):
+        b = [None] * len(a)
+        for t in range(T):
+            b[perm[t] * block:(perm[t] + 1) * block] = a[t * block:(t + 1) * block]
+        return b
+    grp = "none" if (case["time_none"] or case["scope"] == "overall") else C.ilist(unperm(case["codes"], 1))
+    yrs = C.ilist(unperm(years_of(case["time"]), 1))
+    s0 = enc_spec(case["scope"], case["loc"], case["v0"], case["code_of"])
+    s1 = "-" if case["v1"] is None else enc_spec(case["scope"], case["loc"], case["v1"], case["code_of"])
+    labs = C.ilist(unperm(list(out["labels"].ravel()), I * J)) if "labels" in out else "none"
+    return (f"allperm {C.ilist(perm)} {case['ty']} {T} {I} {J} {C.rlist(unperm(list(case['vals']), I * J))} {grp} {yrs} {s0} {s1} "
+            f"{case['minlen']} {labs}")
+
+
 def compare(case, out, got, res):
     """real outputs vs model line; returns list of mismatch strings"""
     mism = []
@@ -702,6 +722,15 @@ def run(tier, res, force_search=False):
         "calendar arithmetic is Python's datetime (tm_yday, .month, .year, DJF/MAM/JJA/SON); ibicus.utils.day_of_year/month/season/year are compared with it on every time axis used; the model receives integer codes",
         "scipy.ndimage.label is an oracle: clusters_conserve assumes Model.Metrics.LabelLaw, which the harness checks on scipy's labels in every case",
         "np.quantile (method 'linear') as transcribed in Model.Stats.quantileLinear; pandas left merge looks every key up; np.unique = sorted distinct",
+        "runtime-only clauses (decided by the oracle on the real code, no theorem can exhibit them): (1) instances_count — reducing the returned instance array "
+        "with einsum must give the Python integer counts: this is numpy dtype arithmetic (int16 wrap-around), the model counts in unbounded Nat; "
+        "(2) dataset_unchanged / no shared memory — numpy views and in-place writes; the store model only states the contract (fresh buffer), the flag is observed; "
+        "(3) day-of-year / month / year of a time stamp in each encoding (datetime64 units, datetime, types without timetuple) — library calendar code, compared with "
+        "Python's datetime on every axis; only the season rule is modelled (seasonOfMonth, tied by the driver op `season`); "
+        "(4) sums and quotients of non-finite floats (IEEE): the model carries only 'NaN compares False' and 'np.where selects' (XVal, condX, filtG; tied by the driver op `xfilt`); "
+        "(5) float rounding of ratios and of (n-1)*q at an integer",
+        "stateful use of one metric object is specified by the cache-free state machine Model.Metrics.runOps (theorem sequence_eval_current), tied by the driver op `seq` on the same "
+        "sequences the oracle judges; storage-order theorems are about Model.Metrics.reindex, tied by the driver op `allperm`",
         "dataset_unchanged: numpy aliasing is not modelled; the store model's flag (fresh result buffer) is observed with np.shares_memory and a byte comparison of the caller's array around every public method",
     ]
     res.assumptions = ["well-formed requests: 3-d float data (T >= 1), thresholds of the type/locality/scope the metric declares, time of length T",
@@ -748,8 +777,22 @@ def run(tier, res, force_search=False):
                                          desc, size))
         res.count((case["ty"], case["loc"], case["scope"], case["I"], case["J"], case["tkind"], nyears, case["style"], outcome),
                   nontrivial, sample={**describe(case, with_data=False), "instances": int(out["inst"].sum()) if isinstance(out["inst"], np.ndarray) else out["inst"]})
-        lines.append(driver_line(case, out))
+        if case["T"] <= 120 and rng.random() < 0.4:
+            lines.append(driver_line_perm(case, out, rng))
+            res.extra["allperm_lines"] = res.extra.get("allperm_lines", 0) + 1
+        else:
+            lines.append(driver_line(case, out))
         expect.append(("all", case, out))
+        # the documented season rule (Model.Metrics.seasonOfMonth) against utils.season on this axis
+        with warnings.catch_warnings():
+            warnings.simplefilter("ignore")
+            try:
+                from ibicus import utils
+                real_seasons = C.ilist(SEASON_CODE.get(str(v), -1) for v in utils.season(case["time_lib"]))
+            except Exception as e:  # noqa: BLE001
+                real_seasons = "error " + type(e).__name__
+        lines.append("season " + C.ilist(as_date(t).month for t in case["time"]))
+        expect.append(("season", {"time_first": str(case["time"][0]), "T": case["T"], "encoding": case["time_kind"]}, real_seasons))
 
     # ---- large counts: > 2**15 instances along a reduced axis (oracle on the real code only; the driver is not
     #      used here because the executable model is quadratic in the length of the time axis)
@@ -792,6 +835,13 @@ def run(tier, res, force_search=False):
             case = gen_case(rng, tier)
         m = make_metric(case)
         history = ["fresh"]
+        def seq_grp():
+            return "none" if (case["time_none"] or case["scope"] == "overall") else C.ilist(case["codes"])
+        def seq_specs(sep):
+            return (enc_spec(case["scope"], case["loc"], case["v0"], case["code_of"]) + sep +
+                    ("-" if case["v1"] is None else enc_spec(case["scope"], case["loc"], case["v1"], case["code_of"])))
+        seq_head = f"seq {case['T']} {case['I']} {case['J']} {case['ty']} {seq_specs(' ')} {seq_grp()} {C.rlist(case['vals'])}"
+        seq_ops, seq_real = [], []
         for stepno in range(rng.randint(2, 4)):
             if stepno > 0:
                 action = rng.choice(["refill", "scale", "threshold", "type", "refill-time"])
@@ -829,7 +879,19 @@ def run(tier, res, force_search=False):
                             case["time_lib"][...] = probes.present(moved, case["time_kind"])
                         case["keys_real"], case["codes"] = keys_real, codes
                 history.append(action)
+                if action == "refill":
+                    seq_ops.append("W@" + C.rlist(case["vals"]))
+                elif action == "scale":
+                    seq_ops.append("S@" + C.rat(f))
+                elif action == "threshold":
+                    seq_ops.append("H@" + seq_specs("@"))
+                elif action == "type":
+                    seq_ops.append("Y@" + case["ty"])
+                elif action == "refill-time":
+                    seq_ops.append("G@" + seq_grp())
             out, probs = run_real(case, m)
+            seq_ops.append("E")
+            seq_real.append("ok:" + "".join(str(int(v)) for v in out["inst"].ravel()) if isinstance(out["inst"], np.ndarray) else out["inst"])
             desc = {**describe(case), "sequence_on_one_metric_object": list(history)}
             size = case["T"] * case["I"] * case["J"]
             for kd, p in probs:
@@ -840,6 +902,8 @@ def run(tier, res, force_search=False):
             snap["time"] = case["time"].copy()
             lines.append(driver_line(snap, out))
             expect.append(("all", snap, out))
+        lines.append(seq_head + " " + " ".join(seq_ops))
+        expect.append(("seq", {**describe(case, with_data=False), "sequence_on_one_metric_object": list(history)}, "/".join(seq_real)))
         res.count(("sequence", tuple(history), case["ty"], case["scope"], case["loc"]), True)
     res.extra["stateful_sequences"] = n_seq
 
@@ -867,6 +931,21 @@ def run(tier, res, force_search=False):
         case["nonfinite"] = {"positions": sorted(pos)[:20], "count": len(pos)}
         check_calendar(case["time"], problems_all, res, case["time_kind"])
         out, probs = run_real(case, make_metric(case))
+        if isinstance(out["inst"], np.ndarray) and isinstance(out["filt"], np.ndarray):
+            # extended-value model (Model.Metrics.condX / filtG over XVal) on the same entries, thresholds per entry
+            def thr_of(v, t, i, j):
+                if case["scope"] != "overall":
+                    v = v[case["keys_real"][t]]
+                return v if case["loc"] == "global" else v[i][j]
+            idx = [(t, i, j) for t in range(case["T"]) for i in range(case["I"]) for j in range(case["J"])]
+            los = [thr_of(case["v0"], *e) for e in idx]
+            his = [thr_of(case["v1"], *e) for e in idx] if case["v1"] is not None else [Fraction(0)] * len(idx)
+            def tok(v):
+                return C.rat(v) if isinstance(v, Fraction) else ("nan" if v != v else ("inf" if v > 0 else "-inf"))
+            lines.append(f"xfilt {case['ty']} {','.join(tok(v) for v in vals)} {C.rlist(los)} {C.rlist(his)}")
+            real = ("".join(str(int(v)) for v in out["inst"].ravel()) + " | " + ",".join(tok(fr(v)) if math.isfinite(v) else tok(float(v)) for v in out["filt"].ravel())
+                    + " | " + ("1" if np.isfinite(out["filt"]).all() else "0"))
+            expect.append(("xfilt", describe(case), real))
         desc = describe(case)
         size = nn
         for kd, p in probs:
@@ -911,7 +990,7 @@ def run(tier, res, force_search=False):
         lines.append("unique " + C.ilist(ys))
         expect.append(("unique", {"ys": ys}, C.ilist(np.unique(np.array(ys)))))
 
-    res.extra["driver_lines"] = {op: sum(1 for e in expect if e[0] == op) for op in ("all", "fromq", "spell", "rle", "unique")}
+    res.extra["driver_lines"] = {op: sum(1 for e in expect if e[0] == op) for op in ("all", "fromq", "spell", "rle", "unique", "season", "seq", "xfilt")}
     res.extra["expected_error_cases"] = sum(1 for e in expect if e[0] == "all" and e[1]["expect_error"])
     mismatches = []
     try:
